@@ -410,8 +410,16 @@ let throw_as_resume e = match e with
               | _ -> e)
 
 type fkind =
-| KFunc of bool
+| KFunc of bool * bool
 | KGen of bool * bool
+
+type cvar = { cv_fall : (fkind -> bool); cv_wrap2 : bool }
+
+(** val wrapped : fkind -> bool **)
+
+let wrapped = function
+| KFunc (_, w) -> w
+| KGen (_, _) -> false
 
 type stmt =
 | SExpr
@@ -608,34 +616,33 @@ and exec_l fx gen n0 d body els o =
           else let (p, r) = exec_b fx gen n' d els o' in
                let (t, out) = p in (((app (call_part c) t), out), r)))
 
-(** val falloff : (fkind -> bool) -> fkind -> bool -> tok list **)
+(** val falloff : cvar -> fkind -> bool -> tok list **)
 
 let falloff g k tflag =
-  if (&&) (g k) (negb tflag) then TRet :: [] else []
+  if (&&) (g.cv_fall k) (negb tflag) then TRet :: [] else []
 
-(** val finish :
-    (fkind -> bool) -> bool -> fkind -> bool -> outcome -> tok list **)
+(** val finish : cvar -> bool -> fkind -> bool -> outcome -> tok list **)
 
 let finish g fx k tflag = function
 | ONormal -> falloff g k tflag
 | OReturn p -> if (&&) fx p then TRet :: [] else []
-| ORaise _ -> TUnwind :: []
+| ORaise _ ->
+  TUnwind :: (if (&&) g.cv_wrap2 (wrapped k) then TUnwind :: [] else [])
 | _ -> []
 
 (** val gen_allowed : fkind -> bool **)
 
 let gen_allowed = function
-| KFunc _ -> false
+| KFunc (_, _) -> false
 | KGen (i, _) -> negb i
 
 (** val run :
-    (fkind -> bool) -> bool -> func -> nat -> choice list -> tok
-    list * outcome **)
+    cvar -> bool -> func -> nat -> choice list -> tok list * outcome **)
 
 let run g fx fn n0 o =
   let k = fn.f_kind in
   (match k with
-   | KFunc _ ->
+   | KFunc (_, _) ->
      let (p, _) = exec_b fx false n0 O fn.f_body o in
      let (t, out) = p in
      (((TStart SCall) :: (app t (finish g fx k fn.f_tflag out))), out)
@@ -666,13 +673,13 @@ type etok =
 | EExc
 | EUnw
 
-(** val epilogue : (fkind -> bool) -> fkind -> bool -> etok list **)
+(** val epilogue : cvar -> fkind -> bool -> etok list **)
 
 let epilogue g k tflag =
   let fall = map (fun _ -> EFall) (falloff g k tflag) in
   let skip = if tflag then [] else EGotoRet :: [] in
   (match k with
-   | KFunc _ ->
+   | KFunc (_, _) ->
      app (EMark :: [])
        (app fall (app skip (EErrLabel :: (EExc :: (EUnw :: [])))))
    | KGen (_, _) ->
@@ -760,8 +767,7 @@ let rec expand t lt f seg kids =
      | _ -> app (tok_events t lt f k) (expand t lt f r kids))
 
 (** val seg_of :
-    (fkind -> bool) -> bool -> func list -> nat -> choice list -> nat -> nat
-    -> tok list **)
+    cvar -> bool -> func list -> nat -> choice list -> nat -> nat -> tok list **)
 
 let seg_of g fx prog f o fuel k =
   match nth_error prog f with
@@ -769,15 +775,14 @@ let seg_of g fx prog f o fuel k =
   | None -> []
 
 (** val word :
-    (fkind -> bool) -> bool -> tool -> bool -> func list -> xt -> event list **)
+    cvar -> bool -> tool -> bool -> func list -> xt -> event list **)
 
 let rec word g fx t lt prog = function
 | XT (f, o, fuel, k, kids) ->
   expand t lt f (seg_of g fx prog f o fuel k) (words g fx t lt prog kids)
 
 (** val words :
-    (fkind -> bool) -> bool -> tool -> bool -> func list -> xts -> event list
-    list **)
+    cvar -> bool -> tool -> bool -> func list -> xts -> event list list **)
 
 and words g fx t lt prog = function
 | XNil -> []
@@ -825,8 +830,7 @@ let seg_node f seg kids =
         | None -> None)
      | _ -> None)
 
-(** val to_node :
-    (fkind -> bool) -> bool -> func list -> xt -> node option **)
+(** val to_node : cvar -> bool -> func list -> xt -> node option **)
 
 let rec to_node g fx prog = function
 | XT (f, o, fuel, k, kids) ->
@@ -834,8 +838,7 @@ let rec to_node g fx prog = function
    | Some ns -> seg_node f (seg_of g fx prog f o fuel k) ns
    | None -> None)
 
-(** val to_nodes :
-    (fkind -> bool) -> bool -> func list -> xts -> node list option **)
+(** val to_nodes : cvar -> bool -> func list -> xts -> node list option **)
 
 and to_nodes g fx prog = function
 | XNil -> Some []
@@ -847,7 +850,7 @@ and to_nodes g fx prog = function
       | None -> None)
    | None -> None)
 
-(** val complete : (fkind -> bool) -> bool -> func list -> xt -> bool **)
+(** val complete : cvar -> bool -> func list -> xt -> bool **)
 
 let rec complete g fx prog = function
 | XT (f, o, fuel, k, kids) ->
@@ -857,29 +860,39 @@ let rec complete g fx prog = function
        let (toks, out) = run g fx fn fuel o in complete_seg k toks out
      | None -> false) (completes g fx prog kids)
 
-(** val completes : (fkind -> bool) -> bool -> func list -> xts -> bool **)
+(** val completes : cvar -> bool -> func list -> xts -> bool **)
 
 and completes g fx prog = function
 | XNil -> true
 | XCons (x, r) -> (&&) (complete g fx prog x) (completes g fx prog r)
 
-(** val func_ok : bool -> func -> bool **)
+(** val func_ok : cvar -> bool -> func -> bool **)
 
-let func_ok fx fn =
-  (&&) (implb fn.f_tflag (is_term fn.f_body)) ((||) fx (clean_b O fn.f_body))
+let func_ok g fx fn =
+  (&&)
+    ((&&) (implb fn.f_tflag (is_term fn.f_body))
+      ((||) fx (clean_b O fn.f_body)))
+    ((||) (negb g.cv_wrap2) (negb (wrapped fn.f_kind)))
 
-(** val prog_ok : bool -> func list -> bool **)
+(** val prog_ok : cvar -> bool -> func list -> bool **)
 
-let prog_ok fx prog =
-  forallb (func_ok fx) prog
+let prog_ok g fx prog =
+  forallb (func_ok g fx) prog
 
-(** val all_true : fkind -> bool **)
+(** val as_is : cvar **)
 
-let all_true _ =
-  true
+let as_is =
+  { cv_fall = (fun _ -> true); cv_wrap2 = true }
 
-(** val g_not_inlined : fkind -> bool **)
+(** val wrap_fixed : cvar **)
 
-let g_not_inlined = function
-| KFunc _ -> true
-| KGen (inlined, _) -> if inlined then false else true
+let wrap_fixed =
+  { cv_fall = (fun _ -> true); cv_wrap2 = false }
+
+(** val g_not_inlined : cvar **)
+
+let g_not_inlined =
+  { cv_fall = (fun k ->
+    match k with
+    | KFunc (_, _) -> true
+    | KGen (inlined, _) -> if inlined then false else true); cv_wrap2 = true }
